@@ -104,7 +104,7 @@ def _run_kani(pid, prop, tree, harnesses, tier):
         for h, entry in retryable:
             alt = {"z3": "cadical", "cvc5": "cadical", "cadical": "kissat", "kissat": "cadical", None: "kissat"}[h.solver]
             log(f"[{pid}] retry {h.name} with solver {alt}")
-            res2, info2 = kani.run_property(pid, tree, [h], 1, 2 * tmo,
+            res2, info2 = kani.run_property(pid, tree, [h], 1, min(2 * tmo, tmo + 600),
                                             extra_args=list(prop.get("kani_args", ())), solver=alt)
             r2 = res2.get(h.name)
             v2, why2, failed2 = kani.classify(h, r2)
